@@ -18,11 +18,12 @@ from . import env
 
 _STOP = None       # multiprocessing.Event shared by the pool: a violation was found, finish up
 _KEEP_GOING = False
+TIER = "quick"
 
 
-def init_pool(stop_event, keep_going):
-    global _STOP, _KEEP_GOING
-    _STOP, _KEEP_GOING = stop_event, keep_going
+def init_pool(stop_event, keep_going, tier="quick"):
+    global _STOP, _KEEP_GOING, TIER
+    _STOP, _KEEP_GOING, TIER = stop_event, keep_going, tier
 
 
 def stop_requested():
